@@ -213,7 +213,8 @@ def build_all(verbose=False, force=False):
             pass
         rc, out = sh(["make", "-k", "-j16"], cwd=COQ, timeout=COQ_TIMEOUT)
         st.coq_ok = (rc == 0)
-        st.coq_log = out[-6000:]
+        errs = [m.start() for m in re.finditer(r'File "\./', out)]
+        st.coq_log = (("".join(out[i:i + 700] + "\n...\n" for i in errs[:6])) + out[-3000:]) if errs else out[-6000:]
         say("coq make:", "ok" if rc == 0 else "FAILED\n" + out[-3000:])
         vo_ok = {}
         for v in coq_vfiles():
@@ -511,6 +512,26 @@ def print_assumptions(prop_vfile, scratch):
     return names, closed, axioms, rc
 
 
+def failing_statements(log):
+    """(file, line, name of the enclosing Theorem/Lemma/Example) for every error location in a make/coqc log"""
+    out = []
+    for m in re.finditer(r'File "\./([^"]+\.v)", line (\d+)', log):
+        f, ln = m.group(1), int(m.group(2))
+        name = "?"
+        try:
+            src = open(os.path.join(COQ, f)).read().split("\n")
+            for j in range(min(ln, len(src)) - 1, -1, -1):
+                mm = re.match(r"\s*(Theorem|Lemma|Corollary|Example|Definition|Fixpoint)\s+([A-Za-z0-9_']+)", src[j])
+                if mm:
+                    name = mm.group(2)
+                    break
+        except OSError:
+            pass
+        if (f, ln, name) not in out:
+            out.append((f, ln, name))
+    return out
+
+
 def coqchk_once(fingerprint):
     """thorough tier: re-check every compiled property file (and all they depend on) with the independent checker coqchk and
     list the axioms; cached per build fingerprint"""
@@ -673,7 +694,9 @@ def run_check(prop, mod, tier, seed):
         broken = []   # reasons the property is not shown
         bad_files = [f for f in files if not build.vo_ok.get(f)]
         if bad_files:
-            broken.append({"what": "proof", "detail": "Coq files that no longer compile: " + ", ".join(bad_files),
+            where = failing_statements(build.coq_log_full if hasattr(build, "coq_log_full") else build.coq_log)
+            broken.append({"what": "proof", "detail": "Coq files that no longer compile: " + ", ".join(bad_files) +
+                           ("; first failing statement(s): " + "; ".join("%s in %s (line %d)" % (n, f, l) for f, l, n in where[:4]) if where else ""),
                            "log": build.coq_log[-1500:]})
         else:
             proof["discharged"] = proof["obligations"]
